@@ -198,8 +198,10 @@ fn c06_symbol_three_way() {
 /// @encodes SliceRead::parse_r6rs_str_bytes, IoRead::parse_r6rs_str_bytes, parse_r6rs_escape, decode_r6rs_hex_escape
 /// @prop C06
 /// @timeout 1500
+/// @tier thorough
+/// @timeout 3000
 #[kani::proof]
-#[kani::unwind(6)]
+#[kani::unwind(14)]
 fn c06_r6rs_str_three_way() {
     let _ = three_way!(Scan::R6rsStr, false);
 }
@@ -209,8 +211,10 @@ fn c06_r6rs_str_three_way() {
 /// @encodes read::parse_r6rs_char, decode_r6rs_char_hex_escape, decode_utf8_sequence
 /// @prop C06
 /// @timeout 1500
+/// @tier thorough
+/// @timeout 3000
 #[kani::proof]
-#[kani::unwind(6)]
+#[kani::unwind(14)]
 fn c06_r6rs_char_three_way() {
     let _ = three_way!(Scan::R6rsChar, false);
 }
@@ -220,8 +224,10 @@ fn c06_r6rs_char_three_way() {
 /// @encodes read::parse_elisp_char, decode_elisp_char_escape, decode_elisp_hex_escape, decode_elisp_octal_escape
 /// @prop C06
 /// @timeout 1500
+/// @tier thorough
+/// @timeout 3000
 #[kani::proof]
-#[kani::unwind(6)]
+#[kani::unwind(14)]
 fn c06_elisp_char_three_way() {
     let _ = three_way!(Scan::ElispChar, false);
 }
@@ -231,6 +237,8 @@ fn c06_elisp_char_three_way() {
 /// @bound every input of 0..=3 bytes x 3 readers
 /// @prop C17
 /// @timeout 900
+/// @tier thorough
+/// @timeout 1500
 #[kani::proof]
 #[kani::unwind(6)]
 fn c17_symbol_utf8() {
@@ -241,8 +249,10 @@ fn c17_symbol_utf8() {
 /// @bound every input of 0..=3 bytes x 3 readers
 /// @prop C17
 /// @timeout 1500
+/// @tier thorough
+/// @timeout 3000
 #[kani::proof]
-#[kani::unwind(6)]
+#[kani::unwind(14)]
 fn c17_r6rs_str_utf8() {
     let _ = three_way!(Scan::R6rsStr, true);
 }
@@ -274,8 +284,10 @@ fn c12_symbol_stops_at_trivia() {
 /// @bound inputs [b0, trivia] after `#\` resp. `?`, all ASCII b0, 6 trivia bytes
 /// @prop C12
 /// @timeout 900
+/// @tier thorough
+/// @timeout 1500
 #[kani::proof]
-#[kani::unwind(6)]
+#[kani::unwind(14)]
 fn c12_char_stops_at_trivia() {
     let b0: u8 = kani::any();
     let t: u8 = kani::any();
@@ -288,4 +300,35 @@ fn c12_char_stops_at_trivia() {
     let mut sr2 = SliceRead::new(&input);
     let o2 = scan(&mut sr2, Scan::ElispChar, false);
     assert!(o2.ok && o2.len == 1 && o2.b[0] == b0 && o2.consumed == 1);
+}
+
+macro_rules! three_way2 {
+    ($which:expr, $utf8:expr) => {{
+        let b: [u8; 2] = kani::any();
+        let n: usize = kani::any();
+        kani::assume(n <= 2);
+        let input = &b[..n];
+        let mut sr = SliceRead::new(input);
+        let o1 = scan(&mut sr, $which, $utf8);
+        let mut ir = IoRead::new(input);
+        let o2 = scan(&mut ir, $which, $utf8);
+        assert!(same(&o1, &o2) || (!o1.ok && !o2.ok && o1.cat == o2.cat && o1.consumed == o2.consumed));
+        if let Ok(st) = core::str::from_utf8(input) {
+            let mut tr = StrRead::new(st);
+            let o3 = scan(&mut tr, $which, $utf8);
+            assert!(same(&o1, &o3));
+        }
+        kani::cover!(o1.ok && o1.len == 2);
+        kani::cover!(!o1.ok);
+    }};
+}
+
+/// C17 (quick bound): names returned by the symbol scanner from any 0..=2 bytes are well-formed UTF-8, three readers.
+/// @bound every input of 0..=2 bytes x 3 readers
+/// @prop C17
+/// @timeout 900
+#[kani::proof]
+#[kani::unwind(5)]
+fn c17_symbol_utf8_2() {
+    three_way2!(Scan::Symbol, true);
 }
